@@ -110,6 +110,20 @@ class Result:
             self.violations.append(Violation(self.prop, "anchor", name, f"discovered {measured} instances, expected at least {floor}",
                                              detail="anti-vacuity floor not met: an anchor of this rule was renamed, removed or is no longer discovered"))
 
+    def extra_type(self, name, what, table, found):
+        """a type of the crate that the rule's RFC table has no row for.  When every row of the table is matched by a type
+        of the crate this is an addition the table (and the property's enumeration) does not speak about: recorded, not an
+        alarm — the generic rules (no panic, size = written, every byte defined, ...) still cover it.  When some row is
+        unmatched it may be that row's type under a new name: anchor violation (fail closed)."""
+        unmatched = sorted(set(table) - set(found))
+        if unmatched:
+            self.ob(False, "anchor", name, what, detail=f"table rows without a type in the crate: {unmatched}")
+            return False
+        msg = f"{name}: {what} — no row; every row of the table is matched, so this type is outside the table-driven rule (not covered by it)"
+        if msg not in self.notes:
+            self.notes.append(msg)
+        return True
+
     def unmodelled(self, fn, what, span="?"):
         self.violations.append(Violation(self.prop, "unmodelled", fn, what, span,
                                          detail="construct outside the analysed subset was needed by this rule (fail closed)"))
